@@ -6,7 +6,7 @@ Require Import ExtrOcamlBasic.
 Require Import Selium.Base Selium.RustArith Selium.BackoffSpec Selium.BackoffRun.
 Require Import SeliumGen.Backoff.
 Require Import Selium.Regex Selium.TopicSpec Selium.TopicName.
-Require Import Selium.Bytes Selium.Utf8 Selium.Bincode Selium.Wire SeliumGen.Layouts Selium.Transforms Selium.PubSub Selium.PubSubSpec Selium.ReqRep Selium.ReqRepSpec.
+Require Import Selium.Bytes Selium.Utf8 Selium.Bincode Selium.Wire SeliumGen.Layouts Selium.Transforms Selium.PubSub Selium.PubSubSpec Selium.ReqRep Selium.ReqRepSpec Selium.ClientPubSub.
 
 Extraction Language OCaml.
 Extraction "model.ml"
@@ -19,4 +19,5 @@ Extraction "model.ml"
   PubSubSpec.c01_state_ok PubSubSpec.live_ok PubSubSpec.delivered_all PubSubSpec.c16_state_ok PubSubSpec.obs_c01_ok PubSubSpec.obs_delivered_all PubSubSpec.obs_all_adopted PubSubSpec.obs_c16_ok PubSubSpec.obs_c09_bounded_ok PubSubSpec.completed
   ReqRep.rinit ReqRep.rstep ReqRep.rrun_count ReqRep.rpanicked ReqRep.rsettled
   ReqRepSpec.c02_state_ok ReqRepSpec.c10_state_ok ReqRepSpec.obs_c02_ok ReqRepSpec.obs_replies_delivered ReqRepSpec.obs_c10_ok ReqRepSpec.rcompleted ReqRepSpec.obs_rr_c09_bounded_ok ReqRepSpec.obs_c10_final_ok
+  ClientPubSub.subscribe ClientPubSub.publish
   TopicName.try_from TopicName.create TopicName.is_valid TopicName.print TopicSpec.name_ok.
